@@ -165,3 +165,19 @@ Theorem C08_float32_specials_exact :
   f32_of_sf64 S754_nan = Ok nan32.
 Proof. exact f32_exact_special. Qed.
 Print Assumptions C08_float32_specials_exact.
+
+(* 14. Sessions.  The packets of a history of calls on one Crazyflie (the protocol version changing between calls:
+   -1 before the firmware's answer, then the negotiated version; another version after a reconnect) are the
+   pointwise runs, and each one that is sent decodes under the version in force WHEN IT WAS SENT.  That the
+   methods have no other state to depend on is checked structurally by the translator on every run. *)
+Theorem C08_session_decodes : forall h : list step,
+  Forall2 (fun (st : step) (o : outcome) =>
+             let '(cf, c, en) := st in
+             o = run (impl_action c) cf en /\
+             (c <> CLocShortLpp -> forall p ch b, o = Sent p ch b ->
+                exists aws dws, intended c cf en = Some aws /\
+                                fw_decode (c_ver cf) p ch b = Some (canon_cmd c, dws) /\
+                                map canon_val dws = map canon_val aws))
+          h (run_session impl_action h).
+Proof. exact session_decodes. Qed.
+Print Assumptions C08_session_decodes.
